@@ -1,7 +1,7 @@
 (** Property-level consequences of the mempool invariant: C04, C05, C06, C07, reachability for C01/C02. *)
 From Coq Require Import List NArith ZArith Lia Bool Permutation Sorting.Sorted ZifyN ZifyNat ZifyBool.
 From Verif Require Import Base.BStr Base.ListX Txcache.TxTypes Txcache.SenderList Txcache.Selection Txcache.Pool
-  Txcache.SenderList_proofs Txcache.Selection_proofs Txcache.Pool_proofs.
+  Txcache.SenderList_proofs Txcache.Selection_proofs Txcache.Pool_proofs Txcache.Order_proofs.
 Import ListNotations.
 Open Scope Z_scope.
 
@@ -490,4 +490,207 @@ Proof.
     assert (sum_sizes (pool_txs (fst (add_core cfg p t))) <= size t + sum_sizes (pool_txs p)).
     { apply Hs. intros x [<-|Hx]; [exact Hpt|apply Hpos; exact Hx]. }
     lia.
+Qed.
+
+(** ---------- C07: what eviction removes ---------- *)
+
+Lemma filter_keep_front (f : tx -> bool) (a b : list tx) :
+  (forall x, In x a -> f x = true) -> (forall x, In x b -> f x = false) -> filter f (a ++ b) = a.
+Proof.
+  intros Ha Hb. rewrite filter_app.
+  assert (filter f a = a). { clear -Ha. induction a as [|x a IH]; [reflexivity|]. simpl. rewrite (Ha x (or_introl eq_refl)). f_equal. apply IH. intros y Hy. apply Ha. right. exact Hy. }
+  assert (filter f b = []). { clear -Hb. induction b as [|x b IH]; [reflexivity|]. simpl. rewrite (Hb x (or_introl eq_refl)). apply IH. intros y Hy. apply Hb. right. exact Hy. }
+  rewrite H, H0. apply app_nil_r.
+Qed.
+
+Lemma bulk_senders p hs : senders (byhash_remove_bulk p hs) = senders p.
+Proof.
+  unfold byhash_remove_bulk. revert p; induction hs as [|h hs IH]; intros p; simpl; [reflexivity|].
+  rewrite IH. unfold byhash_remove. destruct (alookup (byHash p) h); reflexivity.
+Qed.
+
+Lemma pool_for_sender_congr p q a : senders q = senders p -> pool_for_sender q a = pool_for_sender p a.
+Proof. intros E. unfold pool_for_sender. rewrite E. reflexivity. Qed.
+
+(** one sender loses exactly its transactions with nonce >= n *)
+Lemma evict_sender_suffix_lists p a n : Inv p -> forall b,
+  pool_for_sender (evict_sender_suffix p a n) b =
+  if beqb a b then filter (fun x => (nonce x <? n)%N) (pool_for_sender p b) else pool_for_sender p b.
+Proof.
+  intros HI b. pose proof HI as (HB & (Hnd & Hok & Hcnt) & HL). unfold evict_sender_suffix.
+  destruct (alookup (senders p) a) as [sl|] eqn:Esl.
+  2:{ destruct (beqb_spec a b) as [<-|]; [|reflexivity]. unfold pool_for_sender. rewrite Esl. reflexivity. }
+  destruct (Hok _ _ Esl) as (Hne & Hsorted & Hsnd & Htb).
+  unfold sl_remove_geq. pose proof (split_geq_rev_spec (rev (items sl)) n (proj1 (sorted_rev _) Hsorted)) as Hsp.
+  destruct (split_geq_rev (rev (items sl)) n) as (gone, keptrev). destruct Hsp as (Erev & Hgone & Hkept).
+  assert (Eitems : items sl = rev keptrev ++ rev gone).
+  { rewrite <- (rev_involutive (items sl)), Erev, rev_app_distr. reflexivity. }
+  rewrite (pool_for_sender_congr _ _ b (bulk_senders _ _)).
+  unfold pool_for_sender.
+  change (remove_sender_if_empty (set_senders p (aset (senders p) a {| items := rev keptrev; totalBytes := totalBytes sl - sum_sizes gone |}) (cntSenders p)) a)
+    with (shrink_senders p a (rev keptrev) (totalBytes sl - sum_sizes gone)).
+  rewrite (shrink_senders_lookup _ _ _ _ _ _ Hnd Esl).
+  destruct (beqb_spec a b) as [<-|]; [|reflexivity]. rewrite Esl, Eitems, filter_keep_front.
+  - destruct (rev keptrev); reflexivity.
+  - intros x Hx. apply N.ltb_lt. apply Hkept. apply in_rev. exact Hx.
+  - intros x Hx. apply N.ltb_ge. apply Hgone. apply in_rev. exact Hx.
+Qed.
+
+(** [l'] is [l] cut at a nonce boundary *)
+Definition cut (l' l : list tx) : Prop := l' = l \/ exists n, l' = filter (fun x => (nonce x <? n)%N) l.
+
+Lemma cut_refl l : cut l l. Proof. left. reflexivity. Qed.
+
+Lemma filter_filter_lt n1 n2 (l : list tx) :
+  filter (fun x => (nonce x <? n1)%N) (filter (fun x => (nonce x <? n2)%N) l) = filter (fun x => (nonce x <? N.min n1 n2)%N) l.
+Proof.
+  induction l as [|x l IH]; simpl; [reflexivity|].
+  destruct (N.ltb_spec (nonce x) n2); simpl; [destruct (N.ltb_spec (nonce x) n1)|]; destruct (N.ltb_spec (nonce x) (N.min n1 n2)); try lia; rewrite IH; reflexivity.
+Qed.
+
+Lemma cut_trans a b c : cut a b -> cut b c -> cut a c.
+Proof.
+  intros [->|(n1 & ->)] [->|(n2 & ->)]; [left; reflexivity|right; eauto|right; eauto|].
+  right. exists (N.min n1 n2). apply filter_filter_lt.
+Qed.
+
+Lemma evict_fold_cut p L : Inv p -> forall a,
+  cut (pool_for_sender (fold_left (fun q sn => evict_sender_suffix q (fst sn) (snd sn)) L p) a) (pool_for_sender p a).
+Proof.
+  revert p; induction L as [|(s0, n0) L IH]; intros p HI a; simpl; [apply cut_refl|].
+  destruct (Inv_evict_sender_suffix p s0 n0 HI) as (I1 & _ & _).
+  eapply cut_trans; [apply IH; exact I1|]. rewrite (evict_sender_suffix_lists p s0 n0 HI).
+  destruct (beqb s0 a); [right; eauto|apply cut_refl].
+Qed.
+
+Lemma evict_passes_cut cfg P0 fuel cs p : Inv P0 -> pass_inv P0 cs p -> forall a,
+  cut (pool_for_sender (evict_passes cfg fuel cs p) a) (pool_for_sender p a).
+Proof.
+  intros HI0. revert cs p; induction fuel as [|f IH]; intros cs p HP a; simpl; [apply cut_refl|].
+  destruct (capacity_exceeded cfg p); [|apply cut_refl].
+  destruct (take_batch (numItemsToPreemptivelyEvict cfg) cs) as (batch, cs') eqn:Etb.
+  destruct batch as [|b0 batch]; [apply cut_refl|].
+  destruct (pass_step cfg P0 cs p _ _ HI0 HP Etb) as (HP' & _).
+  eapply cut_trans; [apply IH; exact HP'|]. rewrite (pool_for_sender_congr _ _ a (bulk_senders _ _)).
+  apply evict_fold_cut. apply HP.
+Qed.
+
+(** each sender keeps its list cut at a nonce boundary *)
+Lemma do_eviction_cut cfg p : Inv p -> forall a, cut (pool_for_sender (do_eviction cfg p) a) (pool_for_sender p a).
+Proof.
+  intros HI a. unfold do_eviction. destruct (capacity_exceeded cfg p); [|apply cut_refl].
+  apply (evict_passes_cut cfg p); [exact HI|apply pass_inv_init; exact HI].
+Qed.
+
+(** a cut of a nonce-sorted list is a prefix, and everything kept is below everything removed *)
+Lemma cut_prefix l' l : sorted l -> cut l' l ->
+  exists rest, l = l' ++ rest /\ forall x y, In x l' -> In y rest -> (nonce x < nonce y)%N.
+Proof.
+  intros Hs [->|(n & ->)]; [exists []; split; [symmetry; apply app_nil_r|intros x y _ []]|].
+  induction Hs as [|x l Hs IH Hall]; [exists []; split; [reflexivity|intros x y []]|].
+  simpl. destruct (N.ltb_spec (nonce x) n) as [Hlt|Hge].
+  - destruct IH as (rest & E & Hlt'). exists rest. split; [simpl; f_equal; exact E|].
+    intros u v [<-|Hu] Hv; [|apply Hlt'; assumption].
+    assert (In v l) by (rewrite E; apply in_or_app; right; exact Hv).
+    assert (~ In v (filter (fun x0 => (nonce x0 <? n)%N) l)).
+    { intros Hin. pose proof (sorted_NoDup _ Hs) as Hnd. rewrite E in Hnd. eapply NoDup_app_disj; eassumption. }
+    assert ((n <= nonce v)%N).
+    { destruct (N.ltb_spec (nonce v) n) as [Hv'|Hv']; [|exact Hv']. exfalso. apply H0. apply filter_In. split; [exact H|apply N.ltb_lt; exact Hv']. }
+    lia.
+  - assert (filter (fun x0 => (nonce x0 <? n)%N) l = []).
+    { rewrite Forall_forall in Hall. clear IH. induction l as [|y l IHl]; [reflexivity|]. simpl.
+      pose proof (precedes_nonce _ _ (Hall y (or_introl eq_refl))).
+      destruct (N.ltb_spec (nonce y) n); [lia|]. apply IHl; [inversion Hs; assumption|intros z Hz; apply Hall; right; exact Hz]. }
+    rewrite H. exists (x :: l). split; [reflexivity|intros u v []].
+Qed.
+
+(** evicted transactions disappear from every view *)
+Lemma evicted_gone cfg p x : Inv p -> listed p x -> ~ listed (do_eviction cfg p) x ->
+  alookup (byHash (do_eviction cfg p)) (hash x) = None.
+Proof.
+  intros HI Hl Hnl. destruct (Inv_do_eviction cfg p HI) as (HI' & Hsub).
+  destruct (alookup (byHash (do_eviction cfg p)) (hash x)) as [y|] eqn:E; [|reflexivity]. exfalso.
+  assert (Ehy : hash y = hash x) by (apply HI'; exact E).
+  assert (Hly : listed (do_eviction cfg p) y) by (apply HI'; rewrite Ehy; exact E).
+  assert (y = x) by (apply (listed_hash_inj p); [exact HI|apply Hsub; exact Hly|exact Hl|exact Ehy]).
+  subst y. exact (Hnl Hly).
+Qed.
+
+(** the history-level pool-wide bound (C06) *)
+Theorem run_pool_pool_wide cfg ops t : hist_ok (ops ++ [PAdd t]) -> thresholds_ok cfg -> evictionEnabled cfg = true ->
+  (forall x, In x (added_txs (ops ++ [PAdd t])) -> 0 <= size x) ->
+  let p' := run_pool cfg (ops ++ [PAdd t]) in
+  cntTx p' <= countThreshold cfg + 1 /\ cntSenders p' <= countThreshold cfg + 1 /\ numBytes p' <= numBytesThreshold cfg + size t.
+Proof.
+  intros Hok HT Hev Hpos. cbv zeta. rewrite run_pool_snoc. simpl. unfold add_tx. rewrite Hev.
+  pose proof (hist_ok_prefix _ _ Hok) as Hok'. destruct (run_pool_inv2 cfg ops Hok') as (HI & Hadds).
+  destruct (Inv_do_eviction cfg _ HI) as (HI' & Hsub).
+  pose proof (do_eviction_post cfg _ HI HT) as Hpost.
+  assert (Hag : agrees (run_pool cfg ops) t).
+  { intros t' Ht'. destruct Hok as (Hinj & _). apply Hinj.
+    - rewrite added_txs_app. apply in_or_app. left. eapply Hadds. exact Ht'.
+    - rewrite added_txs_app. apply in_or_app. right. left. reflexivity.
+    - destruct HI as ((_ & Hh & _) & _). apply Hh. exact Ht'. }
+  assert (Hwf : tx_wf t) by (destruct Hok as (_ & Hwf); apply Hwf; rewrite added_txs_app; apply in_or_app; right; left; reflexivity).
+  assert (Hpt : 0 <= size t) by (apply Hpos; rewrite added_txs_app; apply in_or_app; right; left; reflexivity).
+  assert (Hpos0 : forall x, In x (pool_txs (do_eviction cfg (run_pool cfg ops))) -> 0 <= size x).
+  { intros x Hx. apply Hpos. rewrite added_txs_app. apply in_or_app. left.
+    apply (listed_iff_in _ _ (proj1 (proj2 HI'))) in Hx. apply Hsub in Hx. destruct HI as (_ & _ & HL). apply HL in Hx. eapply Hadds. exact Hx. }
+  destruct (add_core_growth cfg _ t HI' (sub_pool_agrees _ _ t HI HI' Hsub Hag) Hwf Hpos0 Hpt) as (G1 & G2 & G3 & _).
+  unfold capacity_exceeded in Hpost. apply orb_false_iff in Hpost. destruct Hpost as (Hpost & P3).
+  apply orb_false_iff in Hpost. destruct Hpost as (P1 & P2). apply Z.ltb_ge in P1, P2, P3. lia.
+Qed.
+
+(** ---------- C07: which transactions a pass takes ---------- *)
+
+Lemma NoDup_map_transfer {A B C} (f : A -> B) (g : A -> C) (l : list A) :
+  NoDup (map f l) -> (forall x y, In x l -> In y l -> g x = g y -> f x = f y) -> NoDup (map g l).
+Proof.
+  induction l as [|x l IH]; intros Hnd Hinj; simpl; [constructor|]. inversion Hnd; subst. constructor.
+  - intros Hin. apply in_map_iff in Hin. destruct Hin as (y & Ey & Hy). apply H1.
+    rewrite (Hinj x y (or_introl eq_refl) (or_intror Hy) (eq_sym Ey)). apply in_map. exact Hy.
+  - apply IH; [exact H2|]. intros a b Ha Hb. apply Hinj; right; assumption.
+Qed.
+
+(** the heads of the cursors of an eviction have pairwise distinct hashes *)
+Lemma heads_hash_NoDup P0 cs p : Inv P0 -> pass_inv P0 cs p -> NoDup (map (fun c => hash (ecur c)) cs).
+Proof.
+  intros HI0 (_ & _ & (_ & Hnd) & Hcl). apply (NoDup_map_transfer (fun c => sender (ecur c))); [exact Hnd|].
+  intros x y Hx Hy E. f_equal. apply (listed_hash_inj P0); [exact HI0| | |exact E].
+  - apply (Hcl x); [exact Hx|left; reflexivity].
+  - apply (Hcl y); [exact Hy|left; reflexivity].
+Qed.
+
+(** each take is the least valuable transaction at the head of the walks *)
+Lemma take_batch_least k cs b rest cs' : NoDup (map (fun c => hash (ecur c)) cs) ->
+  take_batch (S k) cs = (b :: rest, cs') ->
+  exists c, In c cs /\ ecur c = b /\ forall c', In c' cs -> c' = c \/ mv (ecur c') b.
+Proof.
+  intros Hnd H. simpl in H. destruct (worst_index cs 0 None) as [i|] eqn:Ew; [|discriminate].
+  destruct (take_nth i cs) as [(c, others)|] eqn:Et; [|discriminate].
+  destruct (take_batch k _) as (b1, cs2). inversion H; subst.
+  destruct (worst_index_min cs i Hnd Ew) as (cn & Hcn & Hall).
+  destruct (take_nth_spec _ _ _ _ Et) as (l1 & l2 & Ecs & _).
+  assert (cn = c).
+  { clear -Et Hcn. revert i others Et Hcn. induction cs as [|y cs IH]; intros [|i] others Et Hcn; simpl in *; try discriminate.
+    - inversion Et; inversion Hcn; congruence.
+    - destruct (take_nth i cs) as [(z, r)|] eqn:E; [|discriminate]. inversion Et; subst. apply (IH i r); [exact E|exact Hcn]. }
+  subst cn. exists c. split; [eapply nth_error_In; exact Hcn|]. split; [reflexivity|].
+  intros c' Hc'. destruct (In_nth_error _ _ Hc') as (k' & Hk'). destruct (Nat.eq_dec k' i) as [->|Hne].
+  - left. congruence.
+  - right. apply (Hall k' c' Hk' Hne).
+Qed.
+
+(** whenever a transaction is taken, every transaction of that sender with the same or a higher nonce goes with it *)
+Lemma pass_takes_suffix cfg P0 cs p batch cs' : Inv P0 -> pass_inv P0 cs p ->
+  take_batch (numItemsToPreemptivelyEvict cfg) cs = (batch, cs') ->
+  let p2 := byhash_remove_bulk (fold_left (fun q sn => evict_sender_suffix q (fst sn) (snd sn)) (lowest_by_sender batch []) p) (map hash batch) in
+  forall b x, In b batch -> listed p2 x -> sender x = sender b -> (nonce x < nonce b)%N.
+Proof.
+  intros HI0 (HI & Hsub & Hcs & Hcl) Htb. cbv zeta. intros b x Hb Hx Es.
+  destruct (take_batch_spec _ _ _ _ Hcs Htb) as (_ & _ & _ & T4).
+  destruct (Inv_evict_fold p (lowest_by_sender batch []) HI) as (_ & _ & F3).
+  rewrite (listed_congr _ _ x (bulk_senders _ (map hash batch))) in Hx.
+  destruct (lowest_spec batch [] T4 b Hb) as (n & Hn & Hle). apply alookup_In in Hn.
+  pose proof (F3 _ _ x Hn Hx Es). lia.
 Qed.
